@@ -1,7 +1,10 @@
 #!/bin/bash
 # Runs every self-made mutation in /verif/selfmut against the check(s) named by its file name prefix.
+# MATRIX_SHARD=k/n restricts the run to every n-th patch starting at k (for parallel runs on separate snapshots).
 cd "$(dirname "$0")/.."
+SH_K=${MATRIX_SHARD%%/*}; SH_N=${MATRIX_SHARD##*/}; : ${SH_K:=0}; : ${SH_N:=1}; idx=0
 for f in selfmut/*.diff; do
+  idx=$((idx+1)); if [ $((idx % SH_N)) -ne $SH_K ]; then continue; fi
   b=$(basename $f .diff)
   case $b in
     revert-D1|revert-D6) ids="C05";; revert-D4|revert-D7) ids="C16";; revert-D5) ids="C08";;
